@@ -25,9 +25,9 @@ RULE = (
     "multiplication, |d|^n, sqrt(4pi/(2l+1))|d|^l Y_lm from an own normalised recursion validated against mpmath/closed forms/"
     "addition theorem, |d|^n x solid harmonic), relative to sum|w f B| (tol 1e-10); the returned order list is compared with an own "
     "enumeration of the documented Horton order; shape must be (rows, centres). Cases: random-grid = every (type, order 0..8, "
-    "1..5 centres, dimension: Cartesian and radial 1-D/2-D/3-D, pure and pure-radial 3-D) with seeded random points/weights "
+    "1..5 centres, dimension: Cartesian and radial 1-D (flat (N,) and (N,1) points)/2-D/3-D, pure and pure-radial 3-D) with seeded random points/weights "
     "(signed, zero)/f, order passed as int/np.int64/np.int32; real-grid = AtomGrid, MolGrid, UniformGrid 2-D/3-D, Tensor1DGrids, "
-    "AngularGrid, PeriodicGrid, LocalGrid instances x types x orders; dipole = random molecules (1-5 atoms) on random/Mol/Uniform "
+    "AngularGrid, PeriodicGrid, LocalGrid, OneDGrid rules and transformed radial grids (flat (N,) points) x types x orders; dipole = random molecules (1-5 atoms) on random/Mol/Uniform "
     "grids against sum Z(R-Rcm) - sum w rho (p-Rcm); generator = all types x orders 0..12 x dim; hostile = centre on a grid "
     "point, points on / near (cone 0.05-0.3 rad) the z axis, narrow cones 1e-6..1e-2 rad (decided against the row envelope only, loss of digits recorded), duplicate centres, huge dynamic range, integer-typed inputs, non-contiguous views. "
     "A case is non-trivial when at least one monitored call returned and was compared."
@@ -41,7 +41,7 @@ LEVEL_TEXT = "Every call of Grid.moments / the order generator / the dipole help
 TECHNIQUE = "runtime monitoring: post-conditions on Grid.moments, generate_orders_horton_order and dipole_moment_of_molecule with independent basis-function and order-enumeration oracles"
 
 TYPES = c14ref.TYPES
-REAL_GRIDS = ["atomgrid", "atomgrid-offcentre", "molgrid", "uniform3d", "uniform2d", "tensor3d", "tensor2d", "angular", "periodic", "localgrid", "grid-col1d"]
+REAL_GRIDS = ["atomgrid", "atomgrid-offcentre", "molgrid", "uniform3d", "uniform2d", "tensor3d", "tensor2d", "angular", "periodic", "localgrid", "grid-col1d", "onedgrid-rule", "onedgrid-transformed"]
 HOSTILE = ["centre-on-point", "z-axis", "near-axis", "narrow-cone", "duplicate-centres", "dynamic-range", "integer-inputs", "views", "single-point", "zero-weights", "rejected-orders", "flat-centres"]
 _state = {"ctx": None, "narrow": None}
 
@@ -61,7 +61,7 @@ def cases(tier, seed):
     for k in range(rreps):
         for g in REAL_GRIDS:
             for t in TYPES:
-                if g in ("uniform2d", "tensor2d", "grid-col1d") and t not in ("cartesian", "radial"):
+                if g in ("uniform2d", "tensor2d", "grid-col1d", "onedgrid-rule", "onedgrid-transformed") and t not in ("cartesian", "radial"):
                     continue
                 for L in ((1, 4, 8) if tier == "quick" else (0, 1, 2, 3, 5, 6, 8)):
                     if t == "pure-radial" and L == 0:
@@ -75,9 +75,6 @@ def cases(tier, seed):
         for h in HOSTILE:
             for t in TYPES:
                 out.append(("hostile", {"what": h, "type": t, "k": k}, 2.0))
-    # pinned witness of the open finding (1-D grid whose points are stored flat, the library's own 1-D convention)
-    out.append(("flat-1d-points", {"cls": "Grid"}, 1e9))
-    out.append(("flat-1d-points", {"cls": "GaussLegendre"}, 1e9))
     return out
 
 
@@ -119,11 +116,7 @@ def _post_moments(res, exc, args, kwargs):
         ctx.count("moments:inadmissible-call:" + ("raised" if exc is not None else "returned"))
         return
     if flat:
-        # a 1-D grid stored the way Grid/OneDGrid document it: points of shape (N,)
-        if exc is not None:
-            ctx.fail("flat-1d-points-accepted", f"Grid.moments[{t},flat (N,) points]", f"raised:{type(exc).__name__}", detail={"error": str(exc)[:200], "class": cls})
-            return
-        ctx.check("flat-1d-points-accepted", f"Grid.moments[{t},flat (N,) points]", True)
+        ctx.count("moments:1-D grid with flat (N,) points (the layout of every OneDGrid)")
     if exc is not None:
         ctx.fail("no-exception", subj, f"raised:{type(exc).__name__}", detail={"error": str(exc)[:300], "order": int(L), "ncent": len(cent), "N": len(pts)})
         return
@@ -439,6 +432,14 @@ def _build_real_grid(rng, kind):
         n = int(rng.integers(50, 400))
         g = Grid(rng.normal(size=(n, 3)), rng.uniform(0, 1, n))
         return g.get_localgrid(rng.normal(size=3) * 0.3, 1.5), 3
+    if kind == "onedgrid-rule":
+        from grid import onedgrid
+
+        cls = [onedgrid.GaussLegendre, onedgrid.GaussChebyshev, onedgrid.GaussLaguerre, onedgrid.Trapezoidal, onedgrid.ClenshawCurtis, onedgrid.MidPoint, onedgrid.Simpson, onedgrid.TanhSinh][int(rng.integers(0, 8))]
+        n = int(rng.integers(3, 30)) * 2 + 1
+        return cls(n), 1
+    if kind == "onedgrid-transformed":
+        return _radial_grid(rng, int(rng.integers(3, 40))), 1
     if kind == "grid-col1d":
         n = int(rng.integers(2, 40))
         gl = GaussLegendre(n)
@@ -456,7 +457,8 @@ def run_case(ctx, family, params):
         t, L, m, dim, k = params["type"], params["order"], params["ncent"], params["dim"], params["k"]
         n = int(rng.integers(1, 300)) if ctx.tier == "quick" else int(rng.integers(1, 1500))
         pts, scale = _random_points(rng, n, dim)
-        g = Grid(pts, _random_weights(rng, n))
+        # 1-D grids: flat (N,) points (the library's own 1-D layout) for every other case, (N,1) otherwise
+        g = Grid(pts[:, 0].copy() if (dim == 1 and (L + m + k) % 2 == 0) else pts, _random_weights(rng, n))
         f = _random_f(rng, pts, scale)
         c = _centres(rng, pts, m, scale)
         sel = L + m + k + dim
@@ -470,6 +472,8 @@ def run_case(ctx, family, params):
             ctx.discard("empty local grid")
             return
         pts = np.asarray(g.points)
+        if pts.ndim == 1:
+            pts = pts[:, None]
         m = int(rng.integers(1, 6))
         ext = float(np.max(np.abs(pts))) + 1e-3
         cents = [pts[int(rng.integers(0, len(pts)))] for _ in range(2)]
@@ -527,19 +531,6 @@ def run_case(ctx, family, params):
             ctx.count("generator:np.int64 order rejected (TypeError, documented type is int)")
     elif family == "hostile":
         _hostile(ctx, params)
-    elif family == "flat-1d-points":
-        from grid.onedgrid import GaussLegendre
-
-        if params["cls"] == "Grid":
-            g = Grid(np.linspace(-1.0, 2.0, 7), np.full(7, 0.5))
-        else:
-            g = GaussLegendre(6)
-        f = np.exp(-g.points**2)
-        for t in ("cartesian", "radial"):
-            try:
-                g.moments(3, np.array([[0.25]]), f, t, return_orders=True)
-            except Exception as exc:  # the attached post-condition has recorded it
-                ctx.case_note("raised", type(exc).__name__)
     else:
         raise ValueError(family)
 
@@ -610,6 +601,8 @@ def _hostile(ctx, params):
             except ValueError:
                 ctx.check("pure-radial-order-zero-rejected", "Grid.moments[pure-radial]", True)
         # and a regular call so that the case decides something
+    if dim == 1 and k % 2 == 0:
+        pts = pts[:, 0]  # flat (N,) layout; for "views" a strided 1-D view
     g = Grid(np.ascontiguousarray(pts) if what != "views" else pts, w)
     try:
         _call_moments(ctx, g, _order_arg(L, k), c, f, t, k + L)
